@@ -13,7 +13,9 @@ RULE = ("Each random case = 40 histories of 20-200 operations over 2-5 receivers
         "SR, RR (0-4 report blocks), BYE (0-3 sources), NACK/PLI/FIR/other feedback (media ssrc), REMB (0-4 SSRCs in the FCI, "
         "also non-REMB APP FCI) and SDES. After every operation the real RtpRouter's return value is compared with a small "
         "reference router written from the statement (dicts and sets), and independently every returned party must be "
-        "currently registered (tombstone set). Enumeration cases run ALL histories up to length 4 (quick) / 5 (thorough) "
+        "currently registered (tombstone set). One case in five replays such histories behind a real RTCDtlsTransport object with "
+        "recording receivers and senders: what _handle_rtp_data / _handle_rtcp_data deliver (after real serialisation and parsing) "
+        "must be the model's set, exactly once each. Enumeration cases run ALL histories up to length 4 (quick) / 5 (thorough) "
         "over 2 receivers x 2 payload types x 2 SSRCs. Distinct/non-trivial = distinct histories containing "
         "latch->unregister->packet, or a packet whose payload type is accepted by several receivers, or overlap of SSRC sets.")
 ASSUMPTIONS = [
@@ -294,6 +296,115 @@ def case_enum(out, tier, index, nshards):
                 "alphabet": len(alpha)})
 
 
+class RecStub(Party):
+    """Recording receiver / sender registered on a real RTCDtlsTransport object."""
+
+    def __init__(self, name, ssrc=0):
+        super().__init__(name)
+        self._ssrc = ssrc
+        self.got = []
+
+    async def _handle_rtp_packet(self, packet, arrival_time_ms):
+        self.got.append(("rtp", packet.ssrc, packet.payload_type))
+
+    async def _handle_rtcp_packet(self, packet):
+        self.got.append(("rtcp", type(packet).__name__))
+
+    def _handle_disconnect(self):
+        pass
+
+
+async def transport_history(rng, out):
+    """The same kind of history behind a real RTCDtlsTransport object (state forced to 'connected'): what
+    _handle_rtp_data / _handle_rtcp_data deliver must be what the reference router says."""
+    from aiortc import rtp
+    from aiortc.rtcrtpparameters import RTCRtpCodecParameters, RTCRtpDecodingParameters, RTCRtpReceiveParameters, RTCRtpSendParameters
+    from vt.rigs.media import FakeIce, certificate
+    from aiortc.rtcdtlstransport import RTCDtlsTransport, State
+
+    t = RTCDtlsTransport(FakeIce("controlling"), [certificate()])
+    t._set_state(State.CONNECTING)
+    t._set_state(State.CONNECTED)
+    model = Model()
+    ssrcs = [rng.randrange(1, 1 << 32) for _ in range(5)]
+    pts = rng.sample([96, 97, 98, 100, 111], 3)
+    recvs = [RecStub(f"R{i}") for i in range(3)]
+    sends = [RecStub(f"S{i}", ssrc=rng.choice(ssrcs)) for i in range(3)]
+    live = set()
+    ops = []
+    for _ in range(rng.choice([20, 60])):
+        r = rng.random()
+        if r < 0.2:
+            rv = rng.choice(recvs)
+            ss = rng.sample(ssrcs, rng.randint(0, 2))
+            pp = rng.sample(pts, rng.randint(1, 2))
+            params = RTCRtpReceiveParameters(codecs=[RTCRtpCodecParameters(mimeType="video/VP8", clockRate=90000, payloadType=p) for p in pp],
+                                             encodings=[RTCRtpDecodingParameters(ssrc=x, payloadType=pp[0]) for x in ss])
+            t._register_rtp_receiver(rv, params)
+            model.register_receiver(rv, ss, pp)
+            live.add(rv)
+            ops.append(("reg", rv.name, ss, pp))
+        elif r < 0.28:
+            rv = rng.choice(recvs)
+            t._unregister_rtp_receiver(rv)
+            model.unregister_receiver(rv)
+            live.discard(rv)
+            ops.append(("unreg", rv.name))
+        elif r < 0.38:
+            sd = rng.choice(sends)
+            t._register_rtp_sender(sd, RTCRtpSendParameters())
+            model.register_sender(sd, sd._ssrc)
+            live.add(sd)
+            ops.append(("regs", sd.name, sd._ssrc))
+        elif r < 0.43:
+            sd = rng.choice(sends)
+            t._unregister_rtp_sender(sd)
+            model.unregister_sender(sd)
+            live.discard(sd)
+            ops.append(("unregs", sd.name))
+        else:
+            for x in recvs + sends:
+                x.got.clear()
+            if r < 0.75:
+                ssrc = rng.choice(ssrcs) if rng.random() < 0.8 else rng.randrange(1 << 32)
+                pt = rng.choice(pts + [5])
+                want = model.route_rtp(ssrc, pt)
+                want_set = {want} if want is not None else set()
+                data = rtp.RtpPacket(payload_type=pt, ssrc=ssrc, sequence_number=1, timestamp=1, payload=b"x").serialize()
+                await t._handle_rtp_data(data, arrival_time_ms=0)
+                op = ("rtp", ssrc, pt)
+                out.counters["routes_checked"] += 1
+            else:
+                pick = lambda: rng.choice(ssrcs)
+                data = b""
+                want_calls = collections.Counter()
+                op = ("rtcp",)
+                for _k in range(rng.choice([1, 1, 2, 3])):  # compound packets too
+                    kind = rng.choice(["sr", "rr", "bye", "nack", "pli", "remb"])
+                    args = (kind, pick(), tuple(pick() for _ in range(rng.randint(0, 3))), tuple(pick() for _ in range(rng.randint(0, 2))),
+                            0 if kind == "remb" else pick(), tuple(pick() for _ in range(rng.randint(0, 3))))
+                    for party in model.route_rtcp(*args):
+                        want_calls[party] += 1
+                    data += bytes(build_rtcp(rtp, *args))
+                    op += (args,)
+                    out.counters["rtcp_routes_checked"] += 1
+                want_set = set(want_calls)
+                await t._handle_rtcp_data(data)
+            ops.append(op)
+            got_set = {x for x in recvs + sends if x.got}
+            calls_ok = all(len(x.got) == (want_calls[x] if op[0] == "rtcp" else 1) for x in got_set)
+            if got_set != want_set or not calls_ok:
+                out.fail("transport-delivery-differs", f"{op!r}: delivered to {sorted(map(repr, got_set))} "
+                         f"({[len(x.got) for x in got_set]} calls), specification says {sorted(map(repr, want_set))}",
+                         {"kind": "transport", "ops": [repr(o)[:80] for o in ops[-12:]]})
+                return
+            if any(x not in live for x in got_set):
+                out.fail("routed-to-unregistered", f"{op!r}: delivered to an unregistered party", {"kind": "transport"})
+                return
+    out.counters["transport_histories"] += 1
+    out.distinct(("transport", hash(tuple(map(repr, ops)))))
+
+
 ENUM_CASES = 21
 
 
@@ -308,6 +419,15 @@ def run_case(index, rng, tier):
     if index < ENUM_CASES:
         case_enum(out, tier, index, ENUM_CASES)
         out.counters["kind_enum"] += 1
+    elif index % 5 == 0:
+        from vt.rigs.pc import run_async
+
+        async def go():
+            for _ in range(40):
+                await transport_history(rng, out)
+        run_async(go(), timeout=120)
+        out.counters["kind_transport"] += 1
+        out.sample({"kind": "transport", "histories": 40})
     else:
         case_random(rng, out)
         out.counters["kind_random"] += 1
